@@ -967,7 +967,7 @@ def E8(m, R):
 
 
 # ----------------------------------------------------------------------------------------------------------------------
-@rule('E9', 'ctor-settings-used: on every path of AnsiStr.__new__ on which settings may be given they reach the wrapped object', floor=3)
+@rule('E9', 'ctor-settings-used: on every path of AnsiStr.__new__ on which settings may be given they reach the wrapped object', floor=2)
 def E9(m, R):
     ro = m.roles
     f = m.fn('AnsiStr.__new__')
